@@ -31,7 +31,9 @@ Clauses(o, ev, o2) ==
     CASE ev.e = "app_start" ->
             LET a == ev.app p == Prev(o, a) IN
             IF ~Req(o, a).known \/ p = "" THEN <<>>
-            ELSE (IF Wire(o, p).ends > 0 THEN <<>> ELSE <<F("overlap", a)>>)
+            \* (judged, like the design's NoOverlap, while the client can still be reached: once a write has
+            \*  failed or the peer has reset, no response can be complete for the client whatever the server does)
+            ELSE (IF Wire(o, p).ends > 0 \/ o.tfail \/ o.reset \/ o.closedAt >= 0 THEN <<>> ELSE <<F("overlap", a)>>)
               \o (IF Reusable(o, p) \/ Wire(o, p).ends = 0 THEN <<>> ELSE <<F("served-after-close", a)>>)
       [] ev.e = "app_recv" ->
             IF ev.type = "http.request" /\ Req(o, ev.app).known
@@ -57,7 +59,10 @@ Clauses(o, ev, o2) ==
                     /\ Req(o, b).head /\ Req(o, b).done /\ ~Req(o, b).bad /\ Req(o, b).kind = "http"
                     /\ Connected(o) /\ ~o.shut /\ ~o.cerr
                     /\ App(o, b).started = 0
-                Ctx == IF \E a \in DOMAIN o.apps : App(o, a).parked = "send" /\ App(o, a).recvd < Req(o, a).body
+                \* (request messages the application has not taken: body bytes, or just the end-of-body message
+                \*  of a bodyless request - with max_app_queue_size = 1 that alone fills the queue)
+                Unread(a) == App(o, a).recvd < Req(o, a).body \/ (Req(o, a).done /\ App(o, a).ended = 0)
+                Ctx == IF \E a \in DOMAIN o.apps : App(o, a).parked = "send" /\ Unread(a)
                        THEN "final-send-parked-body-unread"
                        ELSE IF \E a \in DOMAIN o.apps : App(o, a).parked = "send" THEN "send-parked"
                        ELSE IF UnreadLeft(o) THEN "request-messages-unread"
